@@ -40,6 +40,8 @@ pub struct Incremental {
     pub restored: usize,
     /// Cached diagnostics of restored files, to re-report on a warm run.
     restored_diagnostics: Vec<CachedDiagnostic>,
+    /// Files restored this build; `save` must not overwrite their kept blobs.
+    restored_files: HashSet<PathBuf>,
 }
 
 impl Drop for Incremental {
@@ -131,6 +133,7 @@ impl Incremental {
             root_project: metadata.project.name.clone(),
             restored: 0,
             restored_diagnostics: Vec::new(),
+            restored_files: HashSet::new(),
         })
     }
 
@@ -193,6 +196,7 @@ impl Incremental {
             Ok(()) => {
                 self.store.keep(&src);
                 self.restored += 1;
+                self.restored_files.insert(path.src.clone());
                 self.inputs.remove(&path.src);
                 if let Some(diag_bytes) = diag_bytes {
                     match fragment_cache::restore_diagnostics(&diag_bytes) {
@@ -276,9 +280,13 @@ impl Incremental {
             self.store.set_tests(&src.to_string_lossy(), names);
         }
 
-        // Restored files' diagnostics are already preserved by `Store::keep`,
-        // so only freshly analyzed files appear here.
+        // Restored files' diagnostics are already preserved by `Store::keep`.
+        // A global post-pass may re-derive a subset of them fresh; storing that
+        // subset would drop the rest of the kept blob, so skip restored files.
         for (src, diagnostics) in diagnosed {
+            if self.restored_files.contains(src) {
+                continue;
+            }
             match fragment_cache::capture_diagnostics(diagnostics) {
                 Ok(blob) => self.store.set_diagnostics(&src.to_string_lossy(), &blob),
                 Err(x) => debug!("Failed to capture diagnostics ({}): {x}", src.display()),
